@@ -562,3 +562,22 @@ def _setle_refactor(keep_zero_check):
 
 S('H4_S_le_setters_share_helper', ['C02', 'C15', 'C18', 'C04', 'C09', 'C20'], 'bits.py', fn=_setle_refactor(True))
 V('E4_le_helper_drops_zero_check', ['C15'], 'bits.py', fn=_setle_refactor(False), expect=['E4'])
+
+# ---- D2: non-raising inspection in a decoder
+_SIE_OLD = "        try:\n            return (-codenum, pos + 1) if self[pos] else (codenum, pos + 1)\n        except IndexError:\n            raise bitstring.ReadError(\"Read off end of bitstring trying to read code.\")"
+V('D2_sie_sign_by_startswith', ['C10', 'C06'], 'bits.py', _SIE_OLD, "        return (-codenum, pos + 1) if self.startswith('0b1', pos) else (codenum, pos + 1)", ['D2'])
+S('D2_sie_sign_by_startswith_guarded', ['C10', 'C06'], 'bits.py', _SIE_OLD,
+  "        if pos >= len(self):\n            raise bitstring.ReadError(\"Read off end of bitstring trying to read code.\")\n        return (-codenum, pos + 1) if self.startswith('0b1', pos) else (codenum, pos + 1)")
+
+# ---- MEMO
+V('MEMO_array_bytes_per_item_stale', ['C14', 'C18', 'C09'], 'array_.py', "        self._dtype = dtype\n\n    def _create_element",
+  "        self._dtype = dtype\n\n    def _item_bytes(self):\n        if getattr(self, '_bytes_per_item', None) is None:\n            self._bytes_per_item = self._dtype.bitlength // 8\n        return self._bytes_per_item\n\n    def _create_element", ['MEMO'])
+S('MEMO_array_bytes_per_item_refreshed', ['C14', 'C18', 'C09'], 'array_.py', "        self._dtype = dtype\n\n    def _create_element",
+  "        self._dtype = dtype\n        self._bytes_per_item = None\n\n    def _item_bytes(self):\n        if getattr(self, '_bytes_per_item', None) is None:\n            self._bytes_per_item = self._dtype.bitlength // 8\n        return self._bytes_per_item\n\n    def _create_element")
+S('MEMO_array_plain_extra_state', ['C14', 'C18', 'C09'], 'array_.py', "        self._dtype = dtype\n\n    def _create_element",
+  "        self._dtype = dtype\n        self._label = None\n\n    def _create_element")
+
+# ---- ESC: cached Colour instances
+V('ESC_colour_instance_cache', ['C19'], 'bitstring_options.py', "        x = super().__new__(cls)\n        if use_colour:",
+  "        try:\n            return cls._instances[use_colour]\n        except (AttributeError, KeyError):\n            pass\n        x = super().__new__(cls)\n        cls._instances = {**getattr(cls, '_instances', {}), use_colour: x}\n        if use_colour:", ['ESC'])
+S('ESC_colour_rename_local', ['C19'], 'bitstring_options.py', "        x = super().__new__(cls)\n        if use_colour:", "        colour = x = super().__new__(cls)\n        if use_colour:")
